@@ -912,19 +912,15 @@ impl FixtureDatabase {
 
     /// Recursively search for yield statements in a statement.
     fn find_yield_in_stmt(&self, stmt: &Stmt, line_index: &[usize]) -> Option<usize> {
+        // The statement's own expressions come first in the source: `yield value`,
+        // `x = yield value`, `return (yield)`, `print((yield value))`, `if (yield): ...`
+        if let Some(line) = Self::direct_expressions(stmt)
+            .into_iter()
+            .find_map(|expr| self.find_yield_in_expr(expr, line_index))
+        {
+            return Some(line);
+        }
         match stmt {
-            Stmt::Expr(expr_stmt) => self.find_yield_in_expr(&expr_stmt.value, line_index),
-            // `x = yield value`, `x: T = yield value`, `x += yield value`, `return (yield)`
-            Stmt::Assign(assign) => self.find_yield_in_expr(&assign.value, line_index),
-            Stmt::AnnAssign(ann_assign) => ann_assign
-                .value
-                .as_ref()
-                .and_then(|value| self.find_yield_in_expr(value, line_index)),
-            Stmt::AugAssign(aug_assign) => self.find_yield_in_expr(&aug_assign.value, line_index),
-            Stmt::Return(ret) => ret
-                .value
-                .as_ref()
-                .and_then(|value| self.find_yield_in_expr(value, line_index)),
             Stmt::If(if_stmt) => {
                 // Check body
                 for s in &if_stmt.body {
@@ -1039,21 +1035,10 @@ impl FixtureDatabase {
         }
     }
 
-    /// Find yield expression and return its line number.
+    /// Find the first yield expression anywhere inside `expr` and return its line number.
     fn find_yield_in_expr(&self, expr: &Expr, line_index: &[usize]) -> Option<usize> {
-        match expr {
-            Expr::Yield(yield_expr) => {
-                let line =
-                    self.get_line_from_offset(yield_expr.range.start().to_usize(), line_index);
-                Some(line)
-            }
-            Expr::YieldFrom(yield_from) => {
-                let line =
-                    self.get_line_from_offset(yield_from.range.start().to_usize(), line_index);
-                Some(line)
-            }
-            _ => None,
-        }
+        Self::first_yield_offset_in_expr(expr)
+            .map(|offset| self.get_line_from_offset(offset, line_index))
     }
 }
 
